@@ -1426,7 +1426,7 @@ fn cell_spec2(max_text: usize, grammar: bool) -> BoxedStrategy<CellSpec> {
     (col_pos(), row_pos(), value_spec(max_text), prop::option::weighted(0.3, formula))
         .prop_map(|(col, row, value, formula)| {
             let formula = if matches!(value, ValueSpec::Rich(_)) { None } else { formula };
-            CellSpec { col, row, value, formula }
+            CellSpec { col, row, value, formula, via_set_cell: false }
         })
         .boxed()
 }
@@ -1576,7 +1576,7 @@ fn strat_dirty(t: Tier) -> BoxedStrategy<Case> {
         .prop_map(|(mut case, texts, formulas, cells)| {
             if let Some(e) = case.extra.first_mut() {
                 for (col, row, f) in formulas {
-                    e.cells.push(CellSpec { col, row, value: ValueSpec::Number(Num(1.0)), formula: Some(f) });
+                    e.cells.push(CellSpec { col, row, value: ValueSpec::Number(Num(1.0)), formula: Some(f), via_set_cell: false });
                 }
                 // the dirty alphabet in all three encodings of a text: shared string, rich
                 // runs, cached string result of a formula
@@ -1592,7 +1592,7 @@ fn strat_dirty(t: Tier) -> BoxedStrategy<Case> {
                         ),
                         _ => (ValueSpec::Text(a), Some("A1&B1".to_string())),
                     };
-                    e.cells.push(CellSpec { col, row, value, formula });
+                    e.cells.push(CellSpec { col, row, value, formula, via_set_cell: false });
                 }
             }
             // comments of the case get texts (and some authors) from the dirty alphabet
